@@ -96,6 +96,7 @@ func RunParent(p *Prop, thorough bool, seed int64) int {
 		workers = len(shards)
 	}
 
+	os.RemoveAll(filepath.Join(verifDir(), "replays", p.ID))
 	var mu sync.Mutex
 	results := map[string]*shardResult{}
 	skipped := 0
